@@ -97,16 +97,20 @@ class DefaultHandler(BaseHandler):
         file_list.sort()
         msg_file_name = file_list[-1]
         try:
-            with open(msg_path + msg_file_name, 'r') as fh:
+            # the latest file is empty right after a rotation: the last
+            # sequence number is then in the newest file that has a line
+            for file_name in reversed(file_list):
                 line = None
-                for line in fh:
-                    pass
+                with open(msg_path + file_name, 'r') as fh:
+                    for line in fh:
+                        pass
                 last = line
                 if line:
                     if last.startswith('['):
                         last_seq = eval(last)[1]
                     elif last.startswith('{'):
                         last_seq = json.loads(last)['seq']
+                    break
         except OSError:
             LOG.error('Error when reading bgp message files')
         except Exception as e:
